@@ -28,6 +28,9 @@ struct state
     // track (crate_by_id / track_by_id at the time the variable is bound); calls through the variable then alternate
     // between the two objects.  The model's handles are stateless, so the script's expected answers do not change;
     // a per-object cache in the library (getters answering from what THIS object last read or wrote) does.
+    // a trailing `+sameref` token (this line only): calls with an in and an out parameter of the same type are made
+    // with ONE variable bound to both (create_or_load_database(dir, v, created, v))
+    bool sameref = false;
     bool alias = false;
     unsigned alias_ctr = 0;
     std::map<std::string, djinterop::crate> crates2;
